@@ -147,3 +147,35 @@ func ZZSeqChurn(steps int) {
 	}
 	vReach("end")
 }
+
+// ZZSeqInitial (C16): what a NEW sequence-updates subscriber is told first. The real db.GetSequenceUpdates
+// on a DB that already holds generated keys of prefix "p" (kinds as in ZZSeqGenerate: one suffix, two
+// suffixes, a suffix above 2^63, an ordinary record that merely looks like a member) must hand the
+// subscriber the HIGHEST generated key of that prefix straight away — "a subscriber always eventually
+// observes the latest generated key" also when no further key is ever generated.
+func ZZSeqInitial(kind int) {
+	m := zzSeqState(kind)
+	d := zzNewDB(m, 10)
+	keys, last := zzSeqExisting(kind)
+	want := ""
+	if len(keys) > 0 && last != nil {
+		want = keys[len(keys)-1]
+	}
+	sw, err := d.GetSequenceUpdates("p")
+	vAssert("subscribed", err == nil)
+	if err != nil {
+		return
+	}
+	got := ""
+	select {
+	case got = <-sw.Ch():
+	default:
+	}
+	if last == nil {
+		vReach("no-generated-key")
+	} else {
+		vAssert("new-subscriber-is-told-the-latest-generated-key", got == want)
+	}
+	_ = sw.Close()
+	vReach("end")
+}
